@@ -1,7 +1,10 @@
 package main
 
 import (
+	"fmt"
 	"go/token"
+	"sort"
+	"strings"
 
 	"golang.org/x/tools/go/ssa"
 )
@@ -113,4 +116,197 @@ func branchPos(b *ssa.BasicBlock) token.Pos {
 		}
 	}
 	return token.NoPos
+}
+
+// lastConsumers: for an instruction of fn, the calls that may have been the last to advance the glob scanner when the
+// instruction executes (a forward may-analysis; every call that may consume replaces the set). The nil key stands for
+// "nothing consumed since fn was entered".
+func (g *globScan) lastConsumers(fn *ssa.Function) func(at ssa.Instruction) map[ssa.Instruction]bool {
+	in := map[*ssa.BasicBlock]map[ssa.Instruction]bool{}
+	out := map[*ssa.BasicBlock]map[ssa.Instruction]bool{}
+	transfer := func(b *ssa.BasicBlock, st map[ssa.Instruction]bool, upto ssa.Instruction) map[ssa.Instruction]bool {
+		cur := map[ssa.Instruction]bool{}
+		for k := range st {
+			cur[k] = true
+		}
+		for _, x := range b.Instrs {
+			if x == upto {
+				break
+			}
+			if g.mayConsume(x) {
+				cur = map[ssa.Instruction]bool{x: true}
+			}
+		}
+		return cur
+	}
+	for _, b := range fn.Blocks {
+		in[b] = map[ssa.Instruction]bool{}
+		out[b] = map[ssa.Instruction]bool{}
+	}
+	if len(fn.Blocks) > 0 {
+		in[fn.Blocks[0]][nil] = true
+	}
+	for changed := true; changed; {
+		changed = false
+		for _, b := range fn.Blocks {
+			for _, pr := range b.Preds {
+				for k := range out[pr] {
+					if !in[b][k] {
+						in[b][k] = true
+						changed = true
+					}
+				}
+			}
+			o := transfer(b, in[b], nil)
+			if len(o) != len(out[b]) {
+				changed = true
+			} else {
+				for k := range o {
+					if !out[b][k] {
+						changed = true
+					}
+				}
+			}
+			out[b] = o
+		}
+	}
+	return func(at ssa.Instruction) map[ssa.Instruction]bool {
+		return transfer(at.Block(), in[at.Block()], at)
+	}
+}
+
+// phiLeaves: the values a value can stand for, looking through phis and conversions.
+func phiLeaves(v ssa.Value) []ssa.Value {
+	var out []ssa.Value
+	seen := map[ssa.Value]bool{}
+	var walk func(v ssa.Value)
+	walk = func(v ssa.Value) {
+		if seen[v] {
+			return
+		}
+		seen[v] = true
+		switch x := v.(type) {
+		case *ssa.Phi:
+			for _, e := range x.Edges {
+				walk(e)
+			}
+		case *ssa.Convert:
+			walk(x.X)
+		case *ssa.ChangeType:
+			walk(x.X)
+		default:
+			out = append(out, v)
+		}
+	}
+	walk(v)
+	return out
+}
+
+// runC17ArgLast: a glob error that names a character held in a variable names the character consumed last - that is
+// the one whose column (*globValidator).error records. Every call that may have advanced the scanner last before the
+// error is recorded has to be the call whose result is passed.
+func runC17ArgLast(c *Ctx) {
+	p := c.P
+	g := &globScan{p: p, may: map[*ssa.Function]bool{}, must: map[*ssa.Function]int{}}
+	for _, fn := range p.Funcs {
+		recv := fn.Signature.Recv()
+		if recv == nil || pointeeName(recv.Type()) != "globValidator" {
+			continue
+		}
+		name := FuncName(fn)
+		if name == "(*globValidator).unexpected" || name == "(*globValidator).invalidRefChar" {
+			continue
+		}
+		var last func(at ssa.Instruction) map[ssa.Instruction]bool
+		occ := 0
+		eachInstr(fn, func(_ *ssa.BasicBlock, _ int, in ssa.Instruction) {
+			call, ok := in.(*ssa.Call)
+			if !ok {
+				return
+			}
+			callee := staticCallee(&call.Call)
+			if callee == nil {
+				return
+			}
+			cn := FuncName(callee)
+			if cn != "(*globValidator).unexpected" && cn != "(*globValidator).invalidRefChar" {
+				return
+			}
+			if len(call.Call.Args) < 2 {
+				return
+			}
+			arg := call.Call.Args[1]
+			if _, isConst := arg.(*ssa.Const); isConst {
+				return // decided from the enclosing case by the syntactic clause
+			}
+			occ++
+			construct := fmt.Sprintf("%s|variable named by %s is the character consumed last#%d", name, callee.Name(), occ)
+			if last == nil {
+				last = g.lastConsumers(fn)
+			}
+			holds, param := g.holdsLastOf(arg, 0)
+			var stale []string
+			for m := range last(call) {
+				switch {
+				case m == nil && param:
+				case m == nil:
+					stale = append(stale, "nothing consumed in this function yet")
+				case !holds[m]:
+					stale = append(stale, "the scanner was advanced at "+p.Pos(m.Pos())+" after the named character was read")
+				}
+			}
+			sort.Strings(stale)
+			if len(stale) == 0 {
+				c.ok(construct, call.Pos(), "every call that can have advanced the scanner last delivers the value that is named")
+			} else {
+				c.bad(construct, call.Pos(), strings.Join(stale, "; ")+": the message names a character other than the one at the reported column")
+			}
+		})
+	}
+}
+
+// holdsLastOf: the scanner-advancing calls whose consumed character the value holds: scan.Next() calls, and calls of
+// validator methods whose result (at that index) is the character consumed last on every way to a return. param: the
+// value may also be a parameter of the function.
+func (g *globScan) holdsLastOf(v ssa.Value, depth int) (holds map[ssa.Instruction]bool, param bool) {
+	holds = map[ssa.Instruction]bool{}
+	for _, lf := range phiLeaves(v) {
+		switch x := lf.(type) {
+		case *ssa.Parameter:
+			param = true
+		case *ssa.Call:
+			if calleeFullName(&x.Call) == scanNextFn || g.returnsLast(staticCallee(&x.Call), 0, depth+1) {
+				holds[x] = true
+			}
+		case *ssa.Extract:
+			if call, ok := x.Tuple.(*ssa.Call); ok && g.returnsLast(staticCallee(&call.Call), x.Index, depth+1) {
+				holds[call] = true
+			}
+		}
+	}
+	return holds, param
+}
+
+// returnsLast: result idx of f is, at every return, the character f consumed last (f consumes on every way to a return).
+func (g *globScan) returnsLast(f *ssa.Function, idx int, depth int) bool {
+	if f == nil || !inModule(f) || len(f.Blocks) == 0 || depth > 3 {
+		return false
+	}
+	last := g.lastConsumers(f)
+	for _, b := range f.Blocks {
+		ret, ok := b.Instrs[len(b.Instrs)-1].(*ssa.Return)
+		if !ok {
+			continue
+		}
+		if idx >= len(ret.Results) {
+			return false
+		}
+		holds, _ := g.holdsLastOf(ret.Results[idx], depth)
+		for m := range last(ret) {
+			if m == nil || !holds[m] {
+				return false
+			}
+		}
+	}
+	return true
 }
